@@ -490,7 +490,7 @@ namespace vf {
             if (o.kind == Outcome::INCONCLUSIVE)
             {
                 ++st.inconclusive;
-                if (st.inconclusive_notes.size() < 5) st.inconclusive_notes.push_back(o.msg);
+                if (st.inconclusive_notes.size() < 5) st.inconclusive_notes.push_back(o.msg + " tape=" + tape_json(tape));
                 return;
             }
             if (o.nontrivial)
